@@ -34,6 +34,11 @@ func RawNACK(media uint32, seqs ...uint16) []byte {
 	return mustMarshal(n)
 }
 
+// RawNACKPair is a generic NACK with one FCI entry: pid and the bitmask of the 16 numbers that follow it.
+func RawNACKPair(media uint32, pid, blp uint16) []byte {
+	return mustMarshal(&rtcp.TransportLayerNack{SenderSSRC: 0x99, MediaSSRC: media, Nacks: []rtcp.NackPair{{PacketID: pid, LostPackets: rtcp.PacketBitmap(blp)}}})
+}
+
 // RawPLI is a picture loss indication for media.
 func RawPLI(media uint32) []byte {
 	return mustMarshal(&rtcp.PictureLossIndication{SenderSSRC: 0x99, MediaSSRC: media})
